@@ -123,6 +123,23 @@ func renderNode(sb *strings.Builder, fset *token.FileSet, n ast.Node, d *duality
 		if d != nil {
 			op = d.op(op)
 		}
+		if op == token.LAND || op == token.LOR {
+			// a && b and b && a are the same condition for the purpose of matching mirror images: operands in text order
+			var ops []string
+			var flat func(e ast.Expr)
+			flat = func(e ast.Expr) {
+				if be, ok := e.(*ast.BinaryExpr); ok && be.Op == x.Op {
+					flat(be.X)
+					flat(be.Y)
+					return
+				}
+				ops = append(ops, render(fset, e, d))
+			}
+			flat(x)
+			sort.Strings(ops)
+			sb.WriteString(strings.Join(ops, " "+op.String()+" "))
+			break
+		}
 		renderNode(sb, fset, x.X, d)
 		sb.WriteString(" " + op.String() + " ")
 		renderNode(sb, fset, x.Y, d)
@@ -297,7 +314,16 @@ func collectAtoms(fset *token.FileSet, n ast.Node, d *duality, ctx []string, out
 		emit(buf.String())
 	case *ast.BranchStmt:
 		emit(x.Tok.String())
-	case *ast.ExprStmt, *ast.AssignStmt, *ast.IncDecStmt, *ast.ReturnStmt:
+	case *ast.AssignStmt:
+		if len(x.Lhs) == len(x.Rhs) && len(x.Lhs) > 1 && x.Tok == token.DEFINE {
+			// a, b := e1, e2 introduces two independent names: one atom per pair
+			for i := range x.Lhs {
+				emit(render(fset, x.Lhs[i], d) + " := " + render(fset, x.Rhs[i], d))
+			}
+			return
+		}
+		emit(render(fset, x, d))
+	case *ast.ExprStmt, *ast.IncDecStmt, *ast.ReturnStmt:
 		emit(render(fset, x, d))
 	default:
 		emit(render(fset, x, d))
